@@ -140,4 +140,47 @@ mod __verif_e2e {
             assert_eq!(compiled, interp, "x {op:?} {lit:?}: compiled mask must equal the interpreter's");
         }
     }
+
+    /// scripted metastore: answers one request with `Transfer-Encoding: chunked` and the given raw chunked body
+    fn chunked_server(body: &'static [u8]) -> String {
+        use std::io::{Read, Write};
+        let listener = std::net::TcpListener::bind("127.0.0.1:0").unwrap();
+        let addr = listener.local_addr().unwrap();
+        std::thread::spawn(move || {
+            let (mut s, _) = listener.accept().unwrap();
+            let mut buf = [0u8; 2048];
+            let _ = s.read(&mut buf);
+            s.write_all(b"HTTP/1.1 200 OK\r\nTransfer-Encoding: chunked\r\nConnection: close\r\n\r\n").unwrap();
+            s.write_all(body).unwrap();
+        });
+        format!("http://{addr}")
+    }
+
+    /// C41-chunk-extension-rejected: a chunk size carrying an extension must decode (RFC 9112 7.1.1).
+    #[test]
+    fn e2e_c41_chunk_extension_is_ignored() {
+        let url = chunked_server(b"5;name=value\r\nhello\r\n0\r\n\r\n");
+        let got = crate::metastore::gravitino::http_get(&url, "/x");
+        assert_eq!(got.ok().as_deref(), Some(&b"hello"[..]), "chunk extension must be ignored, body decoded");
+    }
+
+    /// C41-missing-chunk-crlf-accepted: chunk data not followed by CRLF is malformed framing.
+    #[test]
+    fn e2e_c41_chunk_without_crlf_is_rejected() {
+        let url = chunked_server(b"5\r\nhelloXX0\r\n\r\n");
+        let got = crate::metastore::gravitino::http_get(&url, "/x");
+        assert!(got.is_err(), "malformed framing accepted: {:?}", got.map(|b| String::from_utf8_lossy(&b).into_owned()));
+    }
+
+    /// C41 huge declared size: `size + 2` must not overflow / slice out of range.
+    #[test]
+    fn e2e_c41_huge_chunk_size_does_not_panic() {
+        for body in [&b"ffffffffffffffff\r\nab"[..], &b"fffffffffffffffe\r\nab"[..]] {
+            let body: &'static [u8] = Box::leak(body.to_vec().into_boxed_slice());
+            let url = chunked_server(body);
+            let r = std::panic::catch_unwind(|| crate::metastore::gravitino::http_get(&url, "/x"));
+            assert!(r.is_ok(), "decoder panicked on a huge chunk size");
+            assert!(r.unwrap().is_err(), "a chunk larger than the response must be rejected");
+        }
+    }
 }
